@@ -44,6 +44,8 @@ end
 def handle (args : List String) : String :=
   match args with
   | "circ" :: rest => C03.handle ("circ" :: rest)
+  | "unitary" :: rest => C03.handle ("unitary" :: rest)
+  | "width" :: rest => C03.handle ("width" :: rest)
   | op :: "Z" :: rest => handleR carZ (op :: rest)
   | op :: "Q" :: rest => handleR carQ (op :: rest)
   | args => handleR carZ args
